@@ -148,13 +148,14 @@ def c10_jobs(tier):
     for o in (2, 3, 4):
         for d in (1, 3, 4):
             js.append(job("C10.cpp", "C10_s%d_d%d" % (o, d), ["-DVORDER=%d" % o, "-DVDIM=%d" % d], shards=1, weight=o * d))
+        js.append(job("opt_hist.cpp", "C10_ws_s%d" % o, ["-DVPROP=10", "-DVORDER=%d" % o], shards=1, weight=30))
     return js
 
 CHECKS["C10"] = {
     "engine": "E2 history explorer",
     "jobs": c10_jobs,
-    "rule": "state = history over {update by durations / by time points with 5 problems (N = 1, 2, 3, 5, 3'), getEnergy, getEnergyGrad, partial gradients, propagateGrad(unit / dense), evaluate grid} on one spline object; after EVERY transition ALL observables (coefficients, knot times, energy, energy gradients, partials, propagateGrad for two upstream vectors, evaluations at all orders) are compared bitwise with a freshly constructed spline given only the latest inputs; canonical key = every private member incl. factor caches and workspaces; non-trivial = histories of length >= 2",
-    "bounds": {"quick": "3 orders x DIM {1,3,4}: BFS to depth 6 or fixpoint", "thorough": "3 orders x DIM {1,3,4}: BFS to depth 10 or fixpoint"},
+    "rule": "state = history over {update by durations / by time points with 5 problems (N = 1, 2, 3, 5, 3'), getEnergy, getEnergyGrad, partial gradients, propagateGrad(unit / dense), evaluate grid} on one spline object; after EVERY transition ALL observables (coefficients, knot times, energy, energy gradients, partials, propagateGrad for two upstream vectors, evaluations at all orders) are compared bitwise with a freshly constructed spline given only the latest inputs; canonical key = every private member incl. factor caches and workspaces; optimizer workspaces: one Workspace shared by evaluations of three optimizers (N=2 / N=4 / N=2 with other data, flags, start time and energy weight) x 2 decision vectors x {2-cost, 3-cost overload}: after EVERY history every possible next call on the reused workspace equals the same call on a fresh workspace (cost, gradient, workspace spline; bitwise); non-trivial = histories of length >= 2",
+    "bounds": {"quick": "splines: 3 orders x DIM {1,3,4}: BFS to depth 6 or fixpoint; workspaces: 3 orders, BFS to depth 4", "thorough": "splines: BFS to depth 10 or fixpoint; workspaces: 3 orders, BFS to depth 6 or fixpoint"},
     "thresholds": {"all comparisons": "bitwise"},
     "assumptions": ASSUME_COMMON + ["canonical key reads private members through -fno-access-control"],
     "technique": TECH_E2 + "; oracle = fresh-object differential (R5), bitwise",
@@ -216,9 +217,9 @@ CHECKS["C08"] = {
 }
 CHECKS["C09"] = {
     "engine": "E1 lattice explorer (static part) + E2 history explorer (reconfiguration histories)",
-    "jobs": lambda tier: opt_jobs("C09", tier, (1, 2, 3), (1, 2, 3)),
-    "rule": "static: unit = (order, DIM in 1..3, N in 1..6, ALL 256 flag masks, spatial map in {Identity, Proj with dof = DIM-1 at odd points, Tanh}, time map): getDimension = N + sum dof(optimised points) + DIM x #(flagged derivative blocks the order has); generateInitialGuess decodes back to the reference (model decode and through evaluate + getOptimalSpline); a decision vector with pairwise distinct entries 1 + i/64 decodes to exactly the model's slices (unflagged quantities pinned exactly); the exposed spline equals a fresh spline of the decoded inputs (bitwise)",
-    "bounds": {"quick": "3 orders x DIM 1..3 x N 1..6 x 256 masks x {Identity, Proj} (+ Tanh and the other time maps on a sub-lattice of masks)", "thorough": "3 orders x DIM 1..3 x N 1..6 x 256 masks x 3 spatial maps x 3 time maps"},
+    "jobs": lambda tier: opt_jobs("C09", tier, (1, 2, 3), (1, 2, 3)) + [job("opt_hist.cpp", "C09_hist_s%d" % o, ["-DVPROP=9", "-DVORDER=%d" % o], shards=1, weight=20) for o in (2, 3, 4)],
+    "rule": "static: unit = (order, DIM in 1..3, N in 1..6, ALL 256 flag masks, spatial map in {Identity, Proj with dof = DIM-1 at odd points, Tanh}, time map): getDimension = N + sum dof(optimised points) + DIM x #(flagged derivative blocks the order has); generateInitialGuess decodes back to the reference (model decode and through evaluate + getOptimalSpline); a decision vector with pairwise distinct entries 1 + i/64 decodes to exactly the model's slices (unflagged quantities pinned exactly); the exposed spline equals a fresh spline of the decoded inputs (bitwise); history (E2 BFS): ops {setOptimizationFlags (4 masks), setSpatialMap (null / Proj / Scale), setInitState (N=1 / N=3, both overloads), getDimension, generateInitialGuess, evaluate, copy-construct, assign, swap, reconfigure the copy}; after EVERY transition every live optimizer must report the model's dimension for its CURRENT configuration and evaluate bit-identically to a freshly configured equivalent optimizer; canonical key = all private members incl. the lazy layout cache and its dirty flag",
+    "bounds": {"quick": "static: 3 orders x DIM 1..3 x N 1..6 x 256 masks x {Identity, Proj} (+ Tanh and the other time maps on a sub-lattice of masks); history: 3 orders, BFS to depth 5", "thorough": "static: 3 orders x DIM 1..3 x N 1..6 x 256 masks x 3 spatial maps x 3 time maps; history: 3 orders, BFS to depth 8 or fixpoint"},
     "thresholds": {"layout / pinning": "exact", "initial-guess round trip": 1e-12},
     "assumptions": ASSUME_OPT,
     "technique": TECH_E1 + " + " + TECH_E2 + "; oracle = layout/decode model R4",
@@ -246,6 +247,17 @@ CHECKS["C12"] = {
     "assumptions": ASSUME_OPT + ["scheduling points are the library's call-outs into harness types and pthread mutex operations; a race between plain loads/stores with no call-out in between is visible only to the ThreadSanitizer pass", "sequentially consistent interleavings only (no weak-memory reorderings)", "OpenMPExecutor itself is not run under the scheduler; the per-segment lambda it executes is"],
     "technique": "stateless model checking of the implementation: preemption-bounded exhaustive DFS over thread schedules under a cooperative scheduler (iterative context bounding), every execution in a forked child; plus exhaustive enumeration of executor orders/partitions; ThreadSanitizer as a separate free-running monitor",
     "level_text": "all schedules up to the stated preemption bound are executed on the real optimizer; the evidence reports schedules, distinct interleaving traces and the completed bound",
+}
+
+CHECKS["C15"] = {
+    "engine": "E2 history explorer under AddressSanitizer",
+    "jobs": lambda tier: [job("opt_hist.cpp", "C15_s%d" % o, ["-DVPROP=15", "-DVORDER=%d" % o], shards=1, flags=["-fsanitize=address", "-fno-omit-frame-pointer"], env={"ASAN_OPTIONS": "detect_leaks=0:abort_on_error=1"}) for o in (2, 3, 4)],
+    "rule": "the optimizer is instantiated with STATEFUL harness maps as its default map types (the bundled default maps are empty structs, so a dangling pointer to one would never be dereferenced); heap-allocated optimizers A, B and two user maps; ops {setInitState (2 problems), setTimeMap(user/null), setSpatialMap(user/null), evaluate (creates the built-in workspace), B = new copy of A, B = A (also over a B that owns a workspace), A = A, delete A and continue with the copy, swap, mutate the copy, change the user maps' parameters}; after EVERY transition: pointer roles are as modelled (each active map is the optimizer's OWN default map or the user map, built-in workspaces are not shared), every live optimizer evaluates bit-identically to a freshly configured equivalent one, copies remain usable through their own built-in workspace, AddressSanitizer silent; canonical key = all private members (pointers by role) + workspace contents",
+    "bounds": {"quick": "3 orders, BFS to depth 5", "thorough": "3 orders, BFS to depth 7 or fixpoint"},
+    "thresholds": {"all comparisons": "bitwise"},
+    "assumptions": ASSUME_OPT + ["g++ AddressSanitizer as the oracle for use-after-free of a destroyed source optimizer", "pointer roles are read through -fno-access-control"],
+    "technique": TECH_E2 + "; oracle = fresh-object differential + pointer-role model + AddressSanitizer",
+    "level_text": "all histories of copy / assign / mutate / destroy up to the stated depth, before and after the built-in workspace exists, with default and user maps",
 }
 
 NOT_APPLICABLE = {}
